@@ -61,4 +61,53 @@ def VarStack.runOps : VarStack → List VOp → Option VarStack
   | v, [] => some v
   | v, op :: ops => if op.ok v then VarStack.runOps (v.step op) ops else none
 
+/-! ## The interpreter's use of the stack: properly nested blocks
+
+Every `ElemTemplateElement::startElement` that pushes has its `endElement` that pops (the iterative walker
+calls them in pairs; C01's walker model), so one transformation is a *block program*:
+
+* `var`            — a variable / param entry is pushed (`pushVariable`, `pushParams`); it stays until the
+                     enclosing frame is popped;
+* `frame body`     — `pushContextMarker` / `pushElementFrame`, the body, then `popContextMarker` /
+                     `popElementFrame`, which pop down to and including the marker;
+* `withIdx k body` — `pushCurrentStackFrameIndex(k)`, the body, `popCurrentStackFrameIndex()` restoring the
+                     saved index (StylesheetExecutionContextDefault.cpp:912-932; `k` is `~0u`, the global frame
+                     index or an index read earlier, all ≤ the current size — `Block.WF`).
+
+An exception may leave the block program at any point: the abort states are the states after every *prefix*
+of `Block.ops`. -/
+inductive Block where
+  | skip
+  | seq (a b : Block)
+  | var
+  | frame (body : Block)
+  | withIdx (k : Option Nat) (body : Block)
+deriving Repr
+
+def VarStack.steps (v : VarStack) (ops : List VOp) : VarStack := ops.foldl VarStack.step v
+
+/-- the operation sequence a block performs from state `v`, and the state it ends in -/
+def Block.ops : Block → VarStack → List VOp × VarStack
+  | .skip, v => ([], v)
+  | .seq a b, v =>
+    let ra := a.ops v
+    let rb := b.ops ra.2
+    (ra.1 ++ rb.1, rb.2)
+  | .var, v => ([.push], v.step .push)
+  | .frame body, v =>
+    let rb := body.ops (v.step .push)
+    let pops := List.replicate (rb.2.size - v.size) VOp.pop
+    (.push :: (rb.1 ++ pops), rb.2.steps pops)
+  | .withIdx k body, v =>
+    let rb := body.ops (v.step (.setIdx k))
+    (.setIdx k :: (rb.1 ++ [.setIdx (some v.idx)]), rb.2.step (.setIdx (some v.idx)))
+
+/-- explicit indices handed to `pushCurrentStackFrameIndex` lie within the stack -/
+def Block.WF : Block → VarStack → Prop
+  | .skip, _ => True
+  | .var, _ => True
+  | .seq a b, v => a.WF v ∧ b.WF (a.ops v).2
+  | .frame body, v => body.WF (v.step .push)
+  | .withIdx k body, v => (match k with | none => True | some j => j ≤ v.size) ∧ body.WF (v.step (.setIdx k))
+
 end XalanModel.C06
